@@ -19,6 +19,7 @@
 #include <ksi/publicationsfile.h>
 #include <ksi/policy.h>
 #include <ksi/verification.h>
+#include <ksi/signature_builder.h>
 #include <ksi/impl/net_async_impl.h>
 #include <sys/socket.h>
 #include <sys/ioctl.h>
@@ -33,7 +34,7 @@
 /* Several endpoints (hosts h0.example .. h3.example) each with their own connection state; `EP k` selects the one the
  * following S2C/CHUNKS/SENDCAPS/POLL/PEERCLOSE/PEERRESET/CONNECT/GAI commands address.  fd = FD_BASE + ep*FD_EP + connection number. */
 #define FD_BASE 700
-#define FD_EP 10000
+#define FD_EP 100000000
 #define NEP 4
 enum { P_READY, P_NOTREADY, P_HUP, P_ERR, P_NOOUT };
 typedef struct {
@@ -158,7 +159,8 @@ static KSI_AsyncService *svc[8]; static int nsvc = 0;
 static KSI_AsyncClient *tc; static int owned[MAXH]; /* held[i] is owned by the caller (bare TCP mode) or borrowed from the service */
 
 static void reset_net(void) { int k; interactive = 0; for (k = 0; k < NEP; k++) { free(eps[k].s2c); memset(&eps[k], 0, sizeof(Ep)); } cur_ep = pending_ep = 0; vclock = 1600000000; }
-static void free_all(void) { int i; nsvc = 0; memset(svc, 0, sizeof(svc)); for (i = 0; i < MAXH; i++) { if (owned[i]) KSI_AsyncHandle_free(held[i]); held[i] = NULL; owned[i] = 0; } KSI_AsyncService_free(as); as = NULL; KSI_AsyncClient_free(tc); tc = NULL; KSI_CTX_free(ctx); ctx = NULL; }
+static KSI_Signature *slots[32];
+static void free_all(void) { int i; for (i = 0; i < 32; i++) { KSI_Signature_free(slots[i]); slots[i] = NULL; } nsvc = 0; memset(svc, 0, sizeof(svc)); for (i = 0; i < MAXH; i++) { if (owned[i]) KSI_AsyncHandle_free(held[i]); held[i] = NULL; owned[i] = 0; } KSI_AsyncService_free(as); as = NULL; KSI_AsyncClient_free(tc); tc = NULL; KSI_CTX_free(ctx); ctx = NULL; }
 
 /* sub-service calls made by the HA service (net_ha.o -> net_async.o) are interposed too: they are the linearization points of C15 */
 static int svc_index(KSI_AsyncService *s) { int i; if (s == as) return -1; for (i = 0; i < nsvc; i++) if (svc[i] == s) return i; if (nsvc < 8) { svc[nsvc] = s; return nsvc++; } return 99; }
@@ -217,6 +219,7 @@ static void print_handle(KSI_AsyncHandle *h) {
 }
 
 static char cred_user[1024] = "anon", cred_key[70000] = "anon";
+static FILE *devnull;
 
 int main(void) {
 	char *line = NULL; size_t cap = 0; char **tok = malloc(sizeof(char *) * 5000);
@@ -241,12 +244,14 @@ int main(void) {
 			printf("\n"); KSI_DataHash_free(h); KSI_CTX_free(c2); free(k); free(d); free(ks);
 		} else if (!strcmp(tok[0], "VERIFY")) {
 			/* VERIFY <policy> <sigHex> <userPubTime:imprintHex|-> <pubfileHex|-> <extendingAllowed 0|1> [<docHex|-> [<level|->]]   (blocking context from BNEW; the extender is endpoint 1) */
-			size_t sl, pl = 0; unsigned char *sb = hx_dec(tok[2], &sl), *pb = NULL; KSI_Signature *sig = NULL; KSI_PublicationsFile *pf = NULL; KSI_PublicationData *up = NULL;
-			KSI_PolicyVerificationResult *result = NULL; KSI_VerificationContext vc; KSI_DataHash *doc = NULL; int rc, prc; unsigned char *before = NULL, *after = NULL; size_t bl = 0, al = 0;
+			size_t sl = 0, pl = 0; unsigned char *sb = tok[2][0] == '@' ? NULL : hx_dec(tok[2], &sl), *pb = NULL; KSI_Signature *sig = NULL; KSI_PublicationsFile *pf = NULL; KSI_PublicationData *up = NULL;
+			KSI_PolicyVerificationResult *result = NULL; KSI_VerificationContext vc; KSI_DataHash *doc = NULL; int rc, prc, borrowed = 0; unsigned char *before = NULL, *after = NULL; size_t bl = 0, al = 0;
 			const KSI_Policy *pol = !strcmp(tok[1], "KEY") ? KSI_VERIFICATION_POLICY_KEY_BASED : !strcmp(tok[1], "CAL") ? KSI_VERIFICATION_POLICY_CALENDAR_BASED :
 				!strcmp(tok[1], "PUBFILE") ? KSI_VERIFICATION_POLICY_PUBLICATIONS_FILE_BASED : !strcmp(tok[1], "USERPUB") ? KSI_VERIFICATION_POLICY_USER_PUBLICATION_BASED :
 				!strcmp(tok[1], "GENERAL") ? KSI_VERIFICATION_POLICY_GENERAL : KSI_VERIFICATION_POLICY_INTERNAL;
-			prc = KSI_Signature_parseWithPolicy(ctx, sb, sl, KSI_VERIFICATION_POLICY_EMPTY, NULL, &sig); free(sb);
+			if (tok[2][0] == '@') { sig = slots[atoi(tok[2] + 1)]; prc = sig != NULL ? KSI_OK : 0x30000; borrowed = 1; }
+			else prc = KSI_Signature_parseWithPolicy(ctx, sb, sl, KSI_VERIFICATION_POLICY_EMPTY, NULL, &sig);
+			free(sb);
 			if (prc == KSI_OK && strcmp(tok[4], "-")) { pb = hx_dec(tok[4], &pl); prc = KSI_PublicationsFile_parse(ctx, pb, pl, &pf); free(pb); if (prc != KSI_OK) prc |= 0x10000; }
 			if (prc == KSI_OK && strcmp(tok[3], "-")) { char *c2 = strchr(tok[3], ':'); size_t il; unsigned char *ib; KSI_Integer *t = NULL; KSI_DataHash *h = NULL; *c2++ = 0; ib = hx_dec(c2, &il);
 				KSI_PublicationData_new(ctx, &up); KSI_Integer_new(ctx, strtoull(tok[3], NULL, 10), &t); prc = KSI_DataHash_fromImprint(ctx, ib, il, &h); free(ib);
@@ -265,7 +270,38 @@ int main(void) {
 				printf(" src=%s\n", (al == bl && before && after && memcmp(before, after, al) == 0) ? "same" : "diff");
 				KSI_VerificationContext_clean(&vc);
 			}
-			KSI_free(before); KSI_free(after); KSI_PolicyVerificationResult_free(result); KSI_DataHash_free(doc); KSI_PublicationData_free(up); KSI_PublicationsFile_free(pf); KSI_Signature_free(sig);
+			KSI_free(before); KSI_free(after); KSI_PolicyVerificationResult_free(result); KSI_DataHash_free(doc); KSI_PublicationData_free(up); KSI_PublicationsFile_free(pf); if (!borrowed) KSI_Signature_free(sig);
+		} else if (!strcmp(tok[0], "OPARSE")) {
+			/* object slots (C11): OPARSE <slot> <sigHex> | OCLONE <dst> <src> | OSER <slot> | OFREE <slot> | OEXTEND <dst> <src> <head|time|@slotWithPubRec> | OLEVEL <dst> <src> <level> | NOISE hash <hex> | NOISE log <level> */
+			int k = atoi(tok[1]); size_t l; unsigned char *b = hx_dec(tok[2], &l); int rc;
+			KSI_Signature_free(slots[k]); slots[k] = NULL;
+			rc = KSI_Signature_parseWithPolicy(ctx, b, l, KSI_VERIFICATION_POLICY_EMPTY, NULL, &slots[k]); free(b);
+			printf("R oparse rc=0x%x\n", rc);
+		} else if (!strcmp(tok[0], "OCLONE")) {
+			int d = atoi(tok[1]), k = atoi(tok[2]), rc; KSI_Signature_free(slots[d]); slots[d] = NULL;
+			rc = KSI_Signature_clone(slots[k], &slots[d]); printf("R oclone rc=0x%x\n", rc);
+		} else if (!strcmp(tok[0], "OSER")) {
+			unsigned char *ser = NULL; size_t l = 0; int rc = KSI_Signature_serialize(slots[atoi(tok[1])], &ser, &l);
+			printf("R oser rc=0x%x ser=", rc); if (rc == KSI_OK) hx_print(ser, l); else printf("-"); printf("\n"); KSI_free(ser);
+		} else if (!strcmp(tok[0], "OFREE")) {
+			int k = atoi(tok[1]); KSI_Signature_free(slots[k]); slots[k] = NULL; printf("R ofree\n");
+		} else if (!strcmp(tok[0], "OEXTEND")) {
+			int d = atoi(tok[1]), k = atoi(tok[2]), rc; KSI_Signature *ext = NULL;
+			if (tok[3][0] == '@') { KSI_PublicationRecord *pr = NULL; rc = KSI_Signature_getPublicationRecord(slots[atoi(tok[3] + 1)], &pr); if (rc == KSI_OK) rc = KSI_Signature_extend(slots[k], ctx, pr, &ext); }
+			else { KSI_Integer *to = NULL; if (strcmp(tok[3], "head")) KSI_Integer_new(ctx, strtoull(tok[3], NULL, 10), &to); rc = KSI_Signature_extendTo(slots[k], ctx, to, &ext); KSI_Integer_free(to); }
+			KSI_Signature_free(slots[d]); slots[d] = ext;
+			printf("R oextend rc=0x%x\n", rc);
+		} else if (!strcmp(tok[0], "OLEVEL")) {
+			int d = atoi(tok[1]), k = atoi(tok[2]), rc; KSI_SignatureBuilder *bld = NULL; KSI_Signature *out = NULL;
+			rc = KSI_SignatureBuilder_openFromSignature(slots[k], &bld);
+			if (rc == KSI_OK) rc = KSI_SignatureBuilder_close(bld, strtoull(tok[3], NULL, 10), &out);
+			KSI_SignatureBuilder_free(bld); KSI_Signature_free(slots[d]); slots[d] = out;
+			printf("R olevel rc=0x%x\n", rc);
+		} else if (!strcmp(tok[0], "NOISE")) {
+			if (!strcmp(tok[1], "hash")) { size_t l; unsigned char *b = hx_dec(tok[2], &l); KSI_DataHash *h = NULL, *h2 = NULL; KSI_DataHash_create(ctx, b, l, KSI_HASHALG_SHA2_256, &h);
+				KSI_DataHash_create(ctx, b, l / 2, KSI_HASHALG_SHA2_512, &h2); KSI_DataHash_free(h); KSI_DataHash_free(h2); free(b); }
+			else { KSI_CTX_setLoggerCallback(ctx, KSI_LOG_StreamLogger, devnull ? devnull : (devnull = fopen("/dev/null", "w"))); KSI_CTX_setLogLevel(ctx, atoi(tok[2])); }
+			printf("R noise\n");
 		} else if (!strcmp(tok[0], "CONF")) {
 			/* CONF aggr|ext : blocking configuration request */
 			KSI_Config *cfg = NULL; int rc = !strcmp(tok[1], "aggr") ? KSI_receiveAggregatorConfig(ctx, &cfg) : KSI_receiveExtenderConfig(ctx, &cfg);
